@@ -704,3 +704,534 @@ Proof.
   - apply fail_range; auto. apply nary_not_prefix_unary; cbn; auto.
   - apply fail_atom; auto.
 Qed.
+
+(* ---------- <or> ---------- *)
+
+Lemma nary_pairwise :
+  prefixb all_in_lit or_lit = false /\ prefixb all_in_lit range_in_lit = false /\
+  prefixb or_lit all_in_lit = false /\ prefixb or_lit range_in_lit = false /\
+  prefixb range_in_lit all_in_lit = false /\ prefixb range_in_lit or_lit = false.
+Proof.
+  pose proof gen_nary_pairwise as H.
+  repeat (apply andb_true_iff in H; destruct H as [H ?]).
+  repeat split; match goal with |- ?x = false => destruct x; [discriminate|reflexivity] end.
+Qed.
+
+Theorem parse_or ws w a items rest :
+  all_ws ws = true -> all_ws w = true -> atom_ok a = true -> clean_join or_lit w a = true ->
+  forallb oitem_ok items = true -> ends_disj rest = true ->
+  parse (ws ++ or_lit ++ w ++ a ++ flat_map oseg items ++ rest) = Some (or_lit :: a :: map snd items).
+Proof.
+  intros Hws Hw Ha Hj Hi He.
+  assert (Hst : stops (flat_map oseg items ++ rest) = true).
+  { apply stops_oitems; [exact Hi|]. unfold ends_disj in He. apply andb_true_iff in He. tauto. }
+  pose proof (clean_of_join or_lit w a _ Hj Hw Hst) as Hc.
+  pose proof (p_disj_words ws w a items rest Hws Hw Ha Hi He) as Hd.
+  destruct nary_pairwise as [_ [_ [_ [_ [P5 P6]]]]]. destruct nary_pairwise as [P1 [_ [_ _]]].
+  unfold parse. rewrite (first_alt_pick expr_alts ADisj [AUnary] _ _ gen_alts_disj Hd); [reflexivity|].
+  intros b Hb Hbad. destruct b; cbn [parse_alt]; try congruence; try discriminate.
+  - apply fail_nary; auto using or_in_all.
+  - apply fail_range; auto using or_in_all.
+  - apply fail_atom; auto using or_in_all.
+Qed.
+
+(* ---------- <all-in> ---------- *)
+
+Theorem parse_all_in ws w a items rest :
+  all_ws ws = true -> all_ws w = true -> atom_ok a = true -> clean_join all_in_lit w a = true ->
+  forallb item_ok items = true -> ends_atoms rest = true ->
+  parse (ws ++ all_in_lit ++ w ++ a ++ flat_map seg items ++ rest) = Some (all_in_lit :: a :: map snd items).
+Proof.
+  intros Hws Hw Ha Hj Hi He.
+  assert (Hst : stops (flat_map seg items ++ rest) = true).
+  { apply stops_items; [exact Hi|]. unfold ends_atoms in He. apply andb_true_iff in He. tauto. }
+  pose proof (clean_of_join all_in_lit w a _ Hj Hw Hst) as Hc.
+  assert (Hn : p_nary (ws ++ all_in_lit ++ w ++ a ++ flat_map seg items ++ rest)
+               = Some (all_in_lit :: a :: map snd items, rest)).
+  { unfold p_nary, then_, p_lit_tok.
+    rewrite (p_lit_hit all_in_lit ws _ (lit_wf_all _ all_in_in_all) Hws).
+    rewrite (one_or_more_atoms w a items rest Hw Ha Hi He). reflexivity. }
+  destruct nary_pairwise as [_ [_ [P3 [_ [P5 _]]]]].
+  unfold parse. rewrite (first_alt_pick expr_alts ANary [AUnary] _ _ gen_alts_nary Hn); [reflexivity|].
+  intros b Hb Hbad. destruct b; cbn [parse_alt]; try congruence; try discriminate.
+  - apply fail_disj; auto using all_in_in_all.
+  - apply fail_range; auto using all_in_in_all.
+  - apply fail_atom; auto using all_in_in_all.
+Qed.
+
+(* ---------- <range-in> ---------- *)
+
+Lemma gen_range_arity : range_arity = 4%nat.
+Proof. reflexivity. Qed.
+
+Theorem parse_range_in ws w1 a1 w2 a2 w3 a3 w4 a4 rest :
+  all_ws ws = true -> all_ws w1 = true -> clean_join range_in_lit w1 a1 = true ->
+  all_ws w2 = true -> w2 <> [] -> all_ws w3 = true -> w3 <> [] -> all_ws w4 = true -> w4 <> [] ->
+  atom_ok a1 = true -> atom_ok a2 = true -> atom_ok a3 = true -> atom_ok a4 = true ->
+  stops rest = true ->
+  parse (ws ++ range_in_lit ++ w1 ++ a1 ++ w2 ++ a2 ++ w3 ++ a3 ++ w4 ++ a4 ++ rest)
+  = Some [range_in_lit; a1; a2; a3; a4].
+Proof.
+  intros Hws Hw1 Hj Hw2 N2 Hw3 N3 Hw4 N4 Ha1 Ha2 Ha3 Ha4 Hr.
+  assert (S2 : stops (w2 ++ a2 ++ w3 ++ a3 ++ w4 ++ a4 ++ rest) = true) by (apply stops_ws_head; assumption).
+  assert (S3 : stops (w3 ++ a3 ++ w4 ++ a4 ++ rest) = true) by (apply stops_ws_head; assumption).
+  assert (S4 : stops (w4 ++ a4 ++ rest) = true) by (apply stops_ws_head; assumption).
+  pose proof (clean_of_join range_in_lit w1 a1 _ Hj Hw1 S2) as Hc.
+  assert (Hn : p_range (ws ++ range_in_lit ++ w1 ++ a1 ++ w2 ++ a2 ++ w3 ++ a3 ++ w4 ++ a4 ++ rest)
+               = Some ([range_in_lit; a1; a2; a3; a4], rest)).
+  { unfold p_range, then_ at 1, p_lit_tok.
+    rewrite (p_lit_hit range_in_lit ws _ (lit_wf_all _ range_in_all) Hws).
+    rewrite gen_range_arity. cbn [p_times]. unfold then_.
+    rewrite (p_atom_word w1 a1 _ Hw1 Ha1 S2), (p_atom_word w2 a2 _ Hw2 Ha2 S3),
+            (p_atom_word w3 a3 _ Hw3 Ha3 S4), (p_atom_word w4 a4 _ Hw4 Ha4 Hr). reflexivity. }
+  destruct nary_pairwise as [_ [P2 [_ [P4 _]]]].
+  unfold parse. rewrite (first_alt_pick expr_alts ARange [AUnary] _ _ gen_alts_range Hn); [reflexivity|].
+  intros b Hb Hbad. destruct b; cbn [parse_alt]; try congruence; try discriminate.
+  - apply fail_disj; auto using range_in_all.
+  - apply fail_nary; auto using range_in_all.
+  - apply fail_atom; auto using range_in_all.
+Qed.
+
+(* ---------- no operator ---------- *)
+
+Lemma no_lit_at_word l ws a rest :
+  In l all_lits -> all_ws ws = true -> atom_ok a = true -> stops rest = true ->
+  p_lit l (ws ++ a ++ rest) = None.
+Proof.
+  intros Hl Hws Ha Hr. unfold atom_ok in Ha. apply andb_true_iff in Ha. destruct Ha as [Hword Hnop].
+  apply p_lit_miss; [exact Hws|apply word_nows, Hword|].
+  destruct (prefixb l (a ++ rest)) eqn:E; [|reflexivity].
+  apply (lit_no_overrun l a rest (lit_wf_all l Hl) Hr) in E.
+  unfold no_op_prefix in Hnop. rewrite forallb_forall in Hnop. specialize (Hnop l Hl).
+  rewrite E in Hnop. discriminate.
+Qed.
+
+Lemma first_lit_none_at_word ls ws a rest :
+  (forall l, In l ls -> In l all_lits) -> all_ws ws = true -> atom_ok a = true -> stops rest = true ->
+  first_lit ls (ws ++ a ++ rest) = None.
+Proof.
+  intros Hsub Hws Ha Hr. induction ls as [|u us IH]; [reflexivity|]. cbn [first_lit].
+  rewrite (no_lit_at_word u ws a rest (Hsub u (in_eq _ _)) Hws Ha Hr).
+  apply IH. intros l Hl. apply Hsub. right. exact Hl.
+Qed.
+
+Theorem parse_word ws a rest :
+  all_ws ws = true -> atom_ok a = true -> stops rest = true ->
+  parse (ws ++ a ++ rest) = Some [a].
+Proof.
+  intros Hws Ha Hr.
+  pose proof (p_atom_word ws a rest Hws Ha Hr) as Hx.
+  unfold parse. rewrite (first_alt_pick expr_alts AAtom [] _ _ gen_alts_atom Hx); [reflexivity|].
+  intros b Hb _. destruct b; cbn [parse_alt]; try congruence.
+  - unfold p_disj, one_or_more, p_or_item, then_, p_lit_tok.
+    rewrite (no_lit_at_word or_lit ws a rest or_in_all Hws Ha Hr). reflexivity.
+  - unfold p_nary, then_, p_lit_tok.
+    rewrite (no_lit_at_word all_in_lit ws a rest all_in_in_all Hws Ha Hr). reflexivity.
+  - unfold p_range, then_, p_lit_tok.
+    rewrite (no_lit_at_word range_in_lit ws a rest range_in_all Hws Ha Hr). reflexivity.
+  - unfold p_unary, then_, p_first.
+    rewrite (first_lit_none_at_word unary_lits ws a rest unary_in_all Hws Ha Hr). reflexivity.
+Qed.
+
+(* ---------- every parse has one of five shapes ---------- *)
+
+Inductive shape : list str -> Prop :=
+| sh_atom a : shape [a]
+| sh_unary op a : In op unary_lits -> shape [op; a]
+| sh_disj a l : shape (disj_head :: a :: l)
+| sh_nary a l : shape (all_in_lit :: a :: l)
+| sh_range l : length l = range_arity -> shape (range_in_lit :: l).
+
+Lemma p_times_length n : forall s l r, p_times n p_atom s = Some (l, r) -> length l = n.
+Proof.
+  induction n as [|n IH]; intros s l r H; cbn [p_times] in H.
+  - inversion H. reflexivity.
+  - unfold then_ in H. destruct (p_atom s) as [[t1 r1]|] eqn:E1; [|discriminate].
+    destruct (p_times n p_atom r1) as [[t2 r2]|] eqn:E2; [|discriminate].
+    inversion H; subst. apply p_atom_consumes in E1. destruct E1 as [[x ->] _].
+    apply IH in E2. cbn. lia.
+Qed.
+
+Lemma parse_alt_shape a s t r : parse_alt a s = Some (t, r) -> shape t.
+Proof.
+  destruct a; cbn [parse_alt].
+  - unfold p_disj, one_or_more. destruct (p_or_item s) as [[t1 r1]|] eqn:E1; [|discriminate].
+    destruct (many (S (length r1)) p_or_item r1) as [t' r'].
+    intros H. inversion H; subst; clear H.
+    unfold p_or_item, then_, p_lit_tok in E1. destruct (p_lit or_lit s) as [r0|]; [|discriminate].
+    destruct (p_atom r0) as [[t2 r2]|] eqn:E2; [|discriminate]. inversion E1; subst; clear E1.
+    apply p_atom_consumes in E2. destruct E2 as [[x ->] _].
+    unfold disj_action. destruct gen_disj_action as [_ [-> ->]]. cbn. apply sh_disj.
+  - unfold p_nary, then_, p_lit_tok. destruct (p_lit all_in_lit s) as [r0|]; [|discriminate].
+    unfold one_or_more. destruct (p_atom r0) as [[t1 r1]|] eqn:E1; [|discriminate].
+    destruct (many (S (length r1)) p_atom r1) as [t' r'].
+    intros H. inversion H; subst; clear H. apply p_atom_consumes in E1. destruct E1 as [[x ->] _].
+    cbn. apply sh_nary.
+  - unfold p_range, then_, p_lit_tok. destruct (p_lit range_in_lit s) as [r0|]; [|discriminate].
+    destruct (p_times range_arity p_atom r0) as [[l r1]|] eqn:E; [|discriminate].
+    intros H. inversion H; subst; clear H. cbn. apply sh_range. eapply p_times_length, E.
+  - unfold p_unary, then_, p_first. destruct (first_lit unary_lits s) as [[op r0]|] eqn:E0; [|discriminate].
+    destruct (p_atom r0) as [[t1 r1]|] eqn:E1; [|discriminate].
+    intros H. inversion H; subst; clear H. apply p_atom_consumes in E1. destruct E1 as [[x ->] _].
+    apply first_lit_In in E0. cbn. apply sh_unary. tauto.
+  - intros H. apply p_atom_consumes in H. destruct H as [[x ->] _]. apply sh_atom.
+Qed.
+
+Theorem parse_shape spec t : parse spec = Some t -> shape t.
+Proof.
+  unfold parse. generalize expr_alts. intros alts. induction alts as [|a alts IH]; cbn [first_alt]; [discriminate|].
+  destruct (parse_alt a spec) as [[t0 r0]|] eqn:E.
+  - cbn. intros H. inversion H; subst. eapply parse_alt_shape, E.
+  - exact IH.
+Qed.
+
+(* ================================================================ Part 4 *)
+
+Lemma lookup_doc op mt : In (op, mt) documented -> lookup op op_methods = Some mt.
+Proof.
+  intros H. pose proof (forallb_In _ _ _ gen_table_documented H) as H1. cbn [fst snd] in H1.
+  destruct (lookup op op_methods) as [m'|]; [|discriminate]. apply meth_eqb_eq in H1. congruence.
+Qed.
+
+Lemma doc_unary op mt : In (op, mt) documented -> is_unary_meth mt = true -> In op unary_lits.
+Proof.
+  intros H Hu. pose proof (forallb_In _ _ _ gen_grammar_documented H) as H1. cbn [fst snd] in H1.
+  apply mem_str_In. destruct mt; try discriminate; exact H1.
+Qed.
+
+Lemma gen_nary_methods :
+  forallb (fun l => match lookup l op_methods with Some mt => negb (is_unary_meth mt) | None => false end)
+          [disj_head; all_in_lit; range_in_lit] = true.
+Proof. vm_compute. reflexivity. Qed.
+
+(* the dispatch of match is total: a one-token tree is compared as a string; otherwise the head
+   is a key of op_methods and the number of arguments fits the method (no KeyError, no
+   IndexError, no TypeError from a wrong argument count) *)
+Theorem dispatch_total spec :
+  (exists a, tree_of spec = [a]) \/
+  (exists op a mt, tree_of spec = [op; a] /\ lookup op op_methods = Some mt /\ is_unary_meth mt = true) \/
+  (exists op a l mt, tree_of spec = op :: a :: l /\ lookup op op_methods = Some mt /\ is_unary_meth mt = false).
+Proof.
+  unfold tree_of. destruct (parse spec) as [t|] eqn:E; [|left; eexists; reflexivity].
+  apply parse_shape in E. destruct E as [a|op a Hop|a l|a l|l Hl].
+  - left. eexists; reflexivity.
+  - right. left. pose proof (forallb_In _ _ _ gen_unary_methods Hop) as H. cbv beta in H.
+    destruct (lookup op op_methods) as [mt|] eqn:E; [|discriminate]. exists op, a, mt. auto.
+  - right. right. pose proof (forallb_In _ _ disj_head gen_nary_methods) as H. cbv beta in H.
+    destruct (lookup disj_head op_methods) as [mt|] eqn:E; [|discriminate H; cbn; auto].
+    exists disj_head, a, l, mt. repeat split; auto. specialize (H (or_introl eq_refl)).
+    destruct (is_unary_meth mt); [discriminate|reflexivity].
+  - right. right. pose proof (forallb_In _ _ all_in_lit gen_nary_methods) as H. cbv beta in H.
+    destruct (lookup all_in_lit op_methods) as [mt|] eqn:E; [|discriminate H; cbn; auto].
+    exists all_in_lit, a, l, mt. repeat split; auto. specialize (H (or_intror (or_introl eq_refl))).
+    destruct (is_unary_meth mt); [discriminate|reflexivity].
+  - right. right. pose proof (forallb_In _ _ range_in_lit gen_nary_methods) as H. cbv beta in H.
+    destruct (lookup range_in_lit op_methods) as [mt|] eqn:E; [|discriminate H; cbn; auto].
+    rewrite gen_range_arity in Hl. destruct l as [|a l]; [discriminate|].
+    exists range_in_lit, a, l, mt. repeat split; auto.
+    specialize (H (or_intror (or_intror (or_introl eq_refl)))).
+    destruct (is_unary_meth mt); [discriminate|reflexivity].
+Qed.
+
+(* ---------- the documented meanings, written without the generated tables ---------- *)
+
+(* numeric operators: both sides through float(); a side that is not a number is a ValueError *)
+Definition num_meaning (c : cmp) (v a : str) : outcome :=
+  match py_float_of_str v, py_float_of_str a with
+  | Some x, Some y => Val (fcmp c x y)
+  | _, _ => Raise E_Value
+  end.
+
+(* <all-in>: the value must evaluate to a list; every word must be one of its (string) elements *)
+Definition all_in_meaning (r : levres) (atoms : list str) : outcome :=
+  match r with
+  | LRaise e => Raise e
+  | LVal (PList xs) => Val (forallb (fun a => existsb (pyval_is_str a) xs) atoms)
+  | LVal _ => Raise E_Type
+  end.
+
+(* <range-in> LB lo hi RB *)
+Definition range_meaning (r : levres) (lb lo hi rb : str) : outcome :=
+  match r with
+  | LRaise e => Raise e
+  | LVal pv =>
+    match float_of_pyval pv with
+    | inr e => Raise e
+    | inl x =>
+      match py_float_of_str lo with
+      | None => Raise E_Value
+      | Some y =>
+        match py_float_of_str hi with
+        | None => Raise E_Value
+        | Some z =>
+          if f_gtb y z then Raise E_Type
+          else Val ((if beq lb (lit "[") then f_geb x y else f_gtb x y)
+                    && (if beq rb (lit "]") then f_leb x z else f_ltb x z))
+        end
+      end
+    end
+  end.
+
+Lemma operator_spelling :
+  all_in_lit = lit "<all-in>" /\ or_lit = lit "<or>" /\ range_in_lit = lit "<range-in>".
+Proof. repeat split. Qed.
+
+Lemma bracket_atoms :
+  atom_ok (lit "[") = true /\ atom_ok (lit "(") = true /\ atom_ok (lit "]") = true /\ atom_ok (lit ")") = true.
+Proof. vm_compute. repeat split. Qed.
+
+Section Match.
+Variable lev : str -> levres.
+
+Lemma match_of_parse v spec op a l mt :
+  parse spec = Some (op :: a :: l) -> lookup op op_methods = Some mt ->
+  match_ lev v spec = apply_meth lev mt v (a :: l).
+Proof. unfold match_, tree_of. intros -> ->. reflexivity. Qed.
+
+Lemma match_single v spec a : parse spec = Some [a] -> match_ lev v spec = Val (beq a v).
+Proof. unfold match_, tree_of. intros ->. reflexivity. Qed.
+
+Lemma match_unparsed v spec : parse spec = None -> match_ lev v spec = Val (beq spec v).
+Proof. unfold match_, tree_of. intros ->. reflexivity. Qed.
+
+Theorem match_numeric op c v ws w a rest :
+  In (op, MNum c) documented ->
+  all_ws ws = true -> all_ws w = true -> atom_ok a = true -> stops rest = true -> clean_join op w a = true ->
+  match_ lev v (ws ++ op ++ w ++ a ++ rest) = num_meaning c v a.
+Proof.
+  intros Hd Hws Hw Ha Hr Hj.
+  rewrite (match_of_parse v _ op a [] (MNum c)).
+  - cbn [apply_meth]. unfold num_op, num_meaning.
+    destruct (py_float_of_str v); destruct (py_float_of_str a); reflexivity.
+  - apply parse_op_atom; auto. apply (doc_unary op (MNum c) Hd). reflexivity.
+  - apply lookup_doc, Hd.
+Qed.
+
+Theorem match_string op c v ws w a rest :
+  In (op, MStr c) documented ->
+  all_ws ws = true -> all_ws w = true -> atom_ok a = true -> stops rest = true -> clean_join op w a = true ->
+  match_ lev v (ws ++ op ++ w ++ a ++ rest) = Val (scmp c v a).
+Proof.
+  intros Hd Hws Hw Ha Hr Hj.
+  rewrite (match_of_parse v _ op a [] (MStr c)).
+  - reflexivity.
+  - apply parse_op_atom; auto. apply (doc_unary op (MStr c) Hd). reflexivity.
+  - apply lookup_doc, Hd.
+Qed.
+
+Theorem match_in v ws w a rest :
+  all_ws ws = true -> all_ws w = true -> atom_ok a = true -> stops rest = true ->
+  clean_join (lit "<in>") w a = true ->
+  match_ lev v (ws ++ lit "<in>" ++ w ++ a ++ rest) = Val (occursb a v).
+Proof.
+  intros Hws Hw Ha Hr Hj.
+  assert (Hd : In (lit "<in>", MIn) documented) by (cbn; tauto).
+  rewrite (match_of_parse v _ (lit "<in>") a [] MIn).
+  - reflexivity.
+  - apply parse_op_atom; auto. apply (doc_unary _ MIn Hd). reflexivity.
+  - apply lookup_doc, Hd.
+Qed.
+
+Theorem match_or v ws w a items rest :
+  all_ws ws = true -> all_ws w = true -> atom_ok a = true -> clean_join or_lit w a = true ->
+  forallb oitem_ok items = true -> ends_disj rest = true ->
+  match_ lev v (ws ++ or_lit ++ w ++ a ++ flat_map oseg items ++ rest)
+  = Val (existsb (fun x => beq v x) (a :: map snd items)).
+Proof.
+  intros Hws Hw Ha Hj Hi He.
+  rewrite (match_of_parse v _ or_lit a (map snd items) MOr).
+  - reflexivity.
+  - apply parse_or; auto.
+  - apply (lookup_doc (lit "<or>") MOr). cbn; tauto.
+Qed.
+
+Theorem match_all_in v ws w a items rest :
+  all_ws ws = true -> all_ws w = true -> atom_ok a = true -> clean_join all_in_lit w a = true ->
+  forallb item_ok items = true -> ends_atoms rest = true ->
+  match_ lev v (ws ++ all_in_lit ++ w ++ a ++ flat_map seg items ++ rest)
+  = all_in_meaning (lev v) (a :: map snd items).
+Proof.
+  intros Hws Hw Ha Hj Hi He.
+  rewrite (match_of_parse v _ all_in_lit a (map snd items) MAllIn).
+  - reflexivity.
+  - apply parse_all_in; auto.
+  - apply (lookup_doc (lit "<all-in>") MAllIn). cbn; tauto.
+Qed.
+
+Theorem match_range_in v ws w1 lb w2 lo w3 hi w4 rb rest :
+  In lb [lit "["; lit "("] -> In rb [lit "]"; lit ")"] ->
+  all_ws ws = true -> all_ws w1 = true ->
+  all_ws w2 = true -> w2 <> [] -> all_ws w3 = true -> w3 <> [] -> all_ws w4 = true -> w4 <> [] ->
+  atom_ok lo = true -> atom_ok hi = true -> stops rest = true ->
+  match_ lev v (ws ++ range_in_lit ++ w1 ++ lb ++ w2 ++ lo ++ w3 ++ hi ++ w4 ++ rb ++ rest)
+  = range_meaning (lev v) lb lo hi rb.
+Proof.
+  intros Hlb Hrb Hws Hw1 Hw2 N2 Hw3 N3 Hw4 N4 Hlo Hhi Hr.
+  destruct bracket_atoms as [B1 [B2 [B3 B4]]].
+  assert (Alb : atom_ok lb = true) by (destruct Hlb as [<-|[<-|[]]]; assumption).
+  assert (Arb : atom_ok rb = true) by (destruct Hrb as [<-|[<-|[]]]; assumption).
+  assert (Hj : clean_join range_in_lit w1 lb = true).
+  { destruct w1; [|reflexivity]. destruct Hlb as [<-|[<-|[]]]; vm_compute; reflexivity. }
+  rewrite (match_of_parse v _ range_in_lit lb [lo; hi; rb] MRangeIn).
+  - cbn [apply_meth]. unfold range_in, range_meaning.
+    destruct (lev v) as [pv|e]; [|reflexivity].
+    replace (negb (Nat.eqb (length [lb; lo; hi; rb]) range_nargs)) with false by reflexivity.
+    destruct (float_of_pyval pv) as [x|e]; [|reflexivity].
+    unfold range_iy, range_iz, range_il, range_iu. cbn [nth].
+    destruct (py_float_of_str lo) as [y|]; [|reflexivity].
+    destruct (py_float_of_str hi) as [z|]; [|reflexivity].
+    unfold range_guard. cbn [fcmp]. destruct (f_gtb y z); [reflexivity|].
+    destruct Hlb as [<-|[<-|[]]]; destruct Hrb as [<-|[<-|[]]]; reflexivity.
+  - apply parse_range_in; auto.
+  - apply (lookup_doc (lit "<range-in>") MRangeIn). cbn; tauto.
+Qed.
+
+(* no operator: the FIRST word is compared with the value as a string; whatever follows the
+   word (after a character that ends it) is ignored (observation O5: match('abc','abc def')) *)
+Theorem no_operator_is_equality v ws a rest :
+  all_ws ws = true -> atom_ok a = true -> stops rest = true ->
+  match_ lev v (ws ++ a ++ rest) = Val (beq a v).
+Proof. intros Hws Ha Hr. apply match_single, parse_word; assumption. Qed.
+
+(* a spec the grammar rejects is compared as a whole *)
+Theorem unparsable_is_equality v spec :
+  parse spec = None -> match_ lev v spec = Val (beq spec v).
+Proof. apply match_unparsed. Qed.
+
+(* and in general: a result is a string comparison exactly when the tree has one token *)
+Theorem single_token_equality v spec a :
+  tree_of spec = [a] -> match_ lev v spec = Val (beq a v).
+Proof. unfold match_. intros ->. reflexivity. Qed.
+End Match.
+
+(* ================================================================ comparison facts *)
+
+Lemma str_cmp_refl a : str_cmp a a = Eq.
+Proof. induction a as [|x a IH]; cbn; [reflexivity|]. rewrite N.compare_refl. exact IH. Qed.
+
+Lemma str_cmp_eq a b : str_cmp a b = Eq <-> a = b.
+Proof.
+  split; [|intros ->; apply str_cmp_refl].
+  revert b. induction a as [|x a IH]; intros [|y b]; cbn; try discriminate; [reflexivity|].
+  destruct (x ?= y) eqn:E; try discriminate. apply N.compare_eq in E. subst. intros H. f_equal. auto.
+Qed.
+
+Lemma str_cmp_antisym a b : str_cmp b a = CompOpp (str_cmp a b).
+Proof.
+  revert b. induction a as [|x a IH]; intros [|y b]; cbn; try reflexivity.
+  rewrite (N.compare_antisym x y). destruct (x ?= y); cbn; auto.
+Qed.
+
+Lemma str_cmp_beq a b : beq a b = match str_cmp a b with Eq => true | _ => false end.
+Proof.
+  destruct (str_cmp a b) eqn:E.
+  - apply str_cmp_eq in E. subst. apply beq_refl.
+  - destruct (beq a b) eqn:B; [|reflexivity]. apply beq_eq in B. subst. rewrite str_cmp_refl in E. discriminate.
+  - destruct (beq a b) eqn:B; [|reflexivity]. apply beq_eq in B. subst. rewrite str_cmp_refl in E. discriminate.
+Qed.
+
+(* the six string operators are the six order relations of ONE total order:
+   s== is equality, s!= its negation, s<= is "s< or s==", s>= is "s> or s==",
+   s> is s< with the sides swapped, and s< is the negation of s>= *)
+Theorem string_ops_table a b :
+  scmp CEq a b = beq a b /\ scmp CNe a b = negb (beq a b) /\
+  scmp CLe a b = scmp CLt a b || beq a b /\ scmp CGe a b = scmp CGt a b || beq a b /\
+  scmp CGt a b = scmp CLt b a /\ scmp CLt a b = negb (scmp CGe a b).
+Proof.
+  unfold scmp. rewrite (str_cmp_antisym a b), (str_cmp_beq a b).
+  destruct (str_cmp a b); cbn; repeat split.
+Qed.
+
+(* s< is the lexicographic order on code points: a proper prefix, or a smaller code point at
+   the first difference *)
+Theorem string_lt_lexicographic a b :
+  scmp CLt a b = true <->
+  (exists c t, b = a ++ c :: t) \/
+  (exists p x y a' b', a = p ++ x :: a' /\ b = p ++ y :: b' /\ x < y).
+Proof.
+  unfold scmp. split.
+  - revert b. induction a as [|x a IH]; intros [|y b]; cbn; try discriminate.
+    + intros _. left. exists y, b. reflexivity.
+    + destruct (x ?= y) eqn:E.
+      * apply N.compare_eq in E. subst y. intros H. destruct (IH b H) as [[c [t ->]]|[p [x0 [y0 [a' [b' [-> [-> L]]]]]]]].
+        -- left. exists c, t. reflexivity.
+        -- right. exists (x :: p), x0, y0, a', b'. auto.
+      * intros _. right. exists [], x, y, a, b. repeat split. apply N.compare_lt_iff, E.
+      * discriminate.
+  - intros [[c [t ->]]|[p [x [y [a' [b' [-> [-> L]]]]]]]].
+    + induction a as [|x a IH]; cbn; [reflexivity|]. rewrite N.compare_refl. exact IH.
+    + induction p as [|z p IH]; cbn.
+      * apply N.compare_lt_iff in L. rewrite L. reflexivity.
+      * rewrite N.compare_refl. exact IH.
+Qed.
+
+(* <in>: substring *)
+Theorem occursb_spec y x : occursb y x = true <-> exists p q, x = p ++ y ++ q.
+Proof.
+  split.
+  - induction x as [|c x IH]; cbn [occursb]; intros H.
+    + apply orb_true_iff in H. destruct H as [H|H]; [|discriminate].
+      apply prefixb_spec in H. destruct H as [t ->]. exists [], t. reflexivity.
+    + apply orb_true_iff in H. destruct H as [H|H].
+      * apply prefixb_spec in H. destruct H as [t ->]. exists [], t. reflexivity.
+      * destruct (IH H) as [p [q ->]]. exists (c :: p), q. reflexivity.
+  - intros [p [q ->]]. induction p as [|c p IH].
+    + cbn [app]. destruct (y ++ q) eqn:E; cbn [occursb]; rewrite <- E, prefixb_app; reflexivity.
+    + cbn [app occursb]. rewrite IH. apply orb_true_r.
+Qed.
+
+(* <or>: equal to one of the alternatives *)
+Theorem or_spec v alts : existsb (fun x => beq v x) alts = true <-> In v alts.
+Proof.
+  rewrite existsb_exists. split.
+  - intros [x [Hin Hx]]. apply beq_eq in Hx. subst. exact Hin.
+  - intros H. exists v. split; [exact H|apply beq_refl].
+Qed.
+
+(* <all-in>: every word is a string element of the list *)
+Theorem all_in_spec xs atoms :
+  forallb (fun a => existsb (pyval_is_str a) xs) atoms = true <-> (forall a, In a atoms -> In (PStr a) xs).
+Proof.
+  rewrite forallb_forall. split; intros H a Ha; specialize (H a Ha).
+  - rewrite existsb_exists in H. destruct H as [x [Hin Hx]]. destruct x; cbn in Hx; try discriminate.
+    apply beq_eq in Hx. subst. exact Hin.
+  - rewrite existsb_exists. exists (PStr a). split; [exact H|apply beq_refl].
+Qed.
+
+(* '=' means '>=' *)
+Theorem legacy_eq_is_ge :
+  lookup (lit "=") op_methods = Some (MNum CGe) /\ lookup (lit ">=") op_methods = Some (MNum CGe).
+Proof. split; reflexivity. Qed.
+
+(* ================================================================ readable tails *)
+
+Lemma stops_ws w : all_ws w = true -> stops w = true.
+Proof.
+  destruct w as [|c w]; [reflexivity|]. intros H. rewrite <- (app_nil_r (c :: w)).
+  apply stops_ws_head; [exact H|discriminate].
+Qed.
+
+(* trailing whitespace ends both kinds of list *)
+Lemma ends_atoms_ws w : all_ws w = true -> ends_atoms w = true.
+Proof. intros H. unfold ends_atoms. rewrite (stops_ws w H), (p_atom_ws w H). reflexivity. Qed.
+
+Lemma ends_disj_ws w : all_ws w = true -> ends_disj w = true.
+Proof.
+  intros H. unfold ends_disj. rewrite (stops_ws w H).
+  unfold p_or_item, then_, p_lit_tok, p_lit. rewrite (skip_ws_all w H).
+  destruct (lit_wf_cons or_lit lit_wf_or) as [c [l' [-> _]]]. reflexivity.
+Qed.
+
+(* whitespace and then any operator ends a list of atoms *)
+Lemma ends_atoms_op w op t : all_ws w = true -> w <> [] -> In op all_lits -> ends_atoms (w ++ op ++ t) = true.
+Proof.
+  intros Hw Hne Hop. unfold ends_atoms. rewrite (stops_ws_head w _ Hw Hne), (p_atom_at_op op w t Hop Hw). reflexivity.
+Qed.
+
+(* whitespace and then a word that is not an operator ends a disjunction *)
+Lemma ends_disj_word w a rest :
+  all_ws w = true -> w <> [] -> atom_ok a = true -> stops rest = true -> ends_disj (w ++ a ++ rest) = true.
+Proof.
+  intros Hw Hne Ha Hr. unfold ends_disj. rewrite (stops_ws_head w _ Hw Hne).
+  unfold p_or_item, then_, p_lit_tok. rewrite (no_lit_at_word or_lit w a rest or_in_all Hw Ha Hr). reflexivity.
+Qed.
